@@ -115,7 +115,7 @@ def _child(arg):
                     with open(p, "rb") as f:
                         res["out_model"] = f.read()
                 else:
-                    res["out_model"] = bytes(vela.convert_bytes(data))
+                    res["out_model"] = bytes(vela.convert_bytes(bytearray(data)))
                     res["code"] = 0
         except SystemExit as e:
             res["code"] = e.code if isinstance(e.code, int) else 1
